@@ -119,6 +119,31 @@ class OffsetDomain(Domain):
             t = frozenset(("A", f"{a[1]}.{c}", a[2]) if isinstance(a, tuple) and a[0] == "A" and "." not in a[1] else a for a in t)
         return V(t)
 
+    def on_store(self, it, kind, base, key, value, node, st):
+        """`A[i, j] = v` with i or j an integer parsed from the file: the positions of an array are zero-based, the
+        numbers in the file one-based.  Only plain positions are judged; slice bounds may be counts."""
+        if self.mode != "read" or kind != "subscript":
+            return
+        o = it.obj(st, base)
+        if o is None or o.kind != "array":
+            return
+        tgts = []
+        for t in ast.walk(node):
+            if isinstance(t, ast.Subscript) and isinstance(t.ctx, ast.Store):
+                tgts.append(t)
+        for t in tgts:
+            elts = t.slice.elts if isinstance(t.slice, ast.Tuple) else [t.slice]
+            for e in elts:
+                if isinstance(e, ast.Slice) or isinstance(e, ast.Constant):
+                    continue  # slice bounds are often counts read from the file (`occs[norba : norba + nbeta]`)
+                try:
+                    v = it.eval(e, st)
+                except Exception:  # noqa: BLE001 - an index expression the interpreter cannot evaluate carries no tag
+                    continue
+                atoms = frozenset(a for a in self._deep(it, v, st) if isinstance(a, tuple) and a[0] == "T")
+                if atoms:
+                    self.sinks.append(("store-index", it.stack[-1].func, t, atoms, "used as the position of an array store"))
+
     def binop(self, it, op, l, r, node, st):
         lt, rt = self._deep(it, l, st), self._deep(it, r, st)
         if isinstance(op, (ast.Add, ast.Sub)):
